@@ -112,6 +112,10 @@ impl Prop for C14 {
         let mut o = RunOut::pass();
         let mut press_idx: std::collections::HashMap<u16, usize> = Default::default();
         let mut layers_at_press: std::collections::HashMap<u16, (usize, usize)> = Default::default();
+        // was the engine drained when the key was pressed? (a pending tap-dance / tap-hold / chord /
+        // one-shot of an EARLIER key is resolved by this press, and its output is not "what this
+        // key put down")
+        let mut drained_at_press: std::collections::HashMap<u16, bool> = Default::default();
         let mut n_repeat_out = 0u64;
         for (i, op) in case.ops.iter().enumerate() {
             match op {
@@ -179,7 +183,7 @@ impl Prop for C14 {
                         })
                         .unwrap_or(false);
                     let layers_now = (st.k.layout.b().current_layer(), st.k.layout.b().default_layer);
-                    let undisturbed = undisturbed && layers_at_press.get(c).map(|l| *l == layers_now).unwrap_or(false);
+                    let undisturbed = undisturbed && layers_at_press.get(c).map(|l| *l == layers_now).unwrap_or(false) && drained_at_press.get(c).copied().unwrap_or(false);
                     if !undisturbed {
                         o.count("completeness.skipped-other-input-or-layer-change-since-press", 1);
                     }
@@ -227,6 +231,18 @@ impl Prop for C14 {
                 Op::Press(c) => {
                     press_idx.insert(*c, i);
                     layers_at_press.insert(*c, (st.k.layout.b().current_layer(), st.k.layout.b().default_layer));
+                    {
+                        let l = st.k.layout.b();
+                        let drained = l.queue.is_empty()
+                            && l.waiting.is_none()
+                            && l.extra_waiting.is_empty()
+                            && l.tap_dance_eager.is_none()
+                            && l.oneshot.keys.is_empty()
+                            && l.action_queue.is_empty()
+                            && l.active_sequences.is_empty()
+                            && l.chords_v2.as_ref().map(|c| c.is_idle_chv2()).unwrap_or(true);
+                        drained_at_press.insert(*c, drained);
+                    }
                     st.apply(i, op);
                 }
                 Op::Release(c) => {
